@@ -93,12 +93,13 @@ enum Item {
 
 pub fn run(ctx: &Ctx) -> Report {
     let mut work = vec![Item::Names, Item::Malformed, Item::Ids];
-    for i in 0..17 {
+    let eqmax = if ctx.tier == Tier::Thorough { 40 } else { 16 };
+    for i in 0..=eqmax {
         work.push(Item::Equality(i));
     }
     let mut rep = par_items(ctx, "C16", &work, |item, rep| match *item {
         Item::Names => {
-            let mut params: Vec<usize> = (0..=64).collect();
+            let mut params: Vec<usize> = (0..=if ctx.tier == Tier::Thorough { 2000 } else { 64 }).collect();
             params.extend([1000usize, u32::MAX as usize, 1usize << 32, usize::MAX]);
             for c in all_variants(&params) {
                 let s = c.to_string();
@@ -227,7 +228,7 @@ pub fn run(ctx: &Ctx) -> Report {
         }
         Item::Equality(i) => {
             // all pairs (a, b) with a's parameter = i: equal codes must have identical codewords
-            let params: Vec<usize> = (0..=16).collect();
+            let params: Vec<usize> = (0..=if ctx.tier == Tier::Thorough { 40 } else { 16 }).collect();
             let all = all_variants(&params);
             let firsts: Vec<Codes> = if i == 0 { all.iter().cloned().filter(|c| !matches!(c, Codes::Zeta { .. } | Codes::Pi { .. } | Codes::Golomb { .. } | Codes::ExpGolomb { .. } | Codes::Rice { .. }) || param_of(c) == 0).collect() } else { all.iter().cloned().filter(|c| param_of(c) == i && matches!(c, Codes::Zeta { .. } | Codes::Pi { .. } | Codes::Golomb { .. } | Codes::ExpGolomb { .. } | Codes::Rice { .. })).collect() };
             for a in &firsts {
